@@ -1,5 +1,7 @@
 CONSTANTS
   MCPlansFan <- MCPlansFanAll
+  SuccessOnlyAtEnd = TRUE
+  RegisterAtomic = TRUE
   KeepFirstError = TRUE
   RecoverPerStage = TRUE
   FirstErrorWins = TRUE
